@@ -242,6 +242,26 @@ example := C17_stack_decision_sound false
   (by intro c hc; simp at hc; rcases hc with rfl | rfl <;> simp [sortedKeys, SegCol.liveKeys, Merge.liveDocs, dirLe, keyLe])
   (by decide)
 
+/-- The same soundness statement about the decision the DRIVER evaluates (`stackDecisionG`),
+which is `stackDecision` only while the guards extracted from `merger.rs` hold
+(`segment_has_live_nulls`: non-Optional ⇒ false, no deletes ⇒ true, else a scan of the ALIVE docs
+for `first() == None` and nothing else; `is_disjunct_and_sorted_on_sort_property`: window test
+`max ≤ min` / `min ≥ max`, then no reader with live nulls). An edit of either function flips a
+guard: this proof stops compiling and the driver answers `?` instead of a decision. -/
+theorem C17_stack_decision_sound_extracted (desc : Bool) (cs : List SegCol)
+    (hlen : ∀ c ∈ cs, c.keys.length = c.alive.length)
+    (hcard : ∀ c ∈ cs, CardOk c) (hnm : ∀ c ∈ cs, c.card ≠ .multivalued)
+    (hstats : ∀ c ∈ cs, StatsOk c) (hne : ∀ c ∈ cs, c.liveKeys ≠ [])
+    (hsorted : ∀ c ∈ cs, sortedKeys desc c.liveKeys)
+    (hdec : stackDecisionG desc cs = some true) :
+    sortedKeys desc ((cs.map SegCol.liveKeys).flatten) := by
+  have hg : Gen.LIVE_NULLS_SCAN_SHAPE = 1 ∧ Gen.STACK_DECISION_SHAPE = 1 := by decide
+  simp only [stackDecisionG, hg, and_self, if_true, Option.some.injEq] at hdec
+  exact C17_stack_decision_sound desc cs hlen hcard hnm hstats hne hsorted hdec
+
+example : stackDecisionG false [⟨.full, [some 1, some 5], [true, true], (1, 5)⟩,
+    ⟨.optional, [none, some 5, some 9], [false, true, true], (5, 9)⟩] = some true := by decide
+
 /-- NULL PLACEMENT as a property of every sorted key sequence (hence of every fresh segment by
 `C17_sort_order_perm_sorted`, every k-way merged segment by `C17_merge_kway_sorted` and every
 stacked segment by `C17_stack_decision_sound`): ascending, a document without value is never
